@@ -514,6 +514,15 @@ class Ctx:
                             count[nm] = count.get(nm, 0) + 2
         visit(fn.body, lambda x: id(x) in in_loop)
         self._defs = {k: v for k, v in expr.items() if count.get(k) == 1 and k not in params}
+        # closure variables: a name that this (nested) function neither binds nor receives is read from the enclosing function;
+        # if it is a single-assignment temporary there, it is one here too
+        parent = getattr(self.fi, "parent", None)
+        if parent is not None:
+            outer = Ctx(self.S, parent, depth=self.depth).local_defs()
+            mine = set(count) | params
+            for k, v in outer.items():
+                if k not in mine and k not in self._defs:
+                    self._defs[k] = v
         return self._defs
 
     def helper_body(self, call: ast.Call):
